@@ -579,7 +579,15 @@ def insert_closures(text, closures):
                 txt = squash(ft.text[ft.toks[f[0]].start:ft.toks[f[3]].end])
                 params = squash(ft.text[ft.toks[f[0]].start:ft.toks[f[1]].end])
                 key = squash(n)
-                # `|a, b|` alone matches on the parameter list, anything else on the whole closure text
+                # `method:|a, b|` = a closure with that parameter list passed directly to `.method(`;
+                # `|a, b|` alone matches on the parameter list; anything else on the whole closure text
+                meth = None
+                if ':|' in key and not key.startswith('|'):
+                    meth, key = key.split(':', 1)
+                    p1 = ft.prevc(f[0])
+                    p2 = ft.prevc(p1) if p1 is not None else None
+                    if not (p1 is not None and ft.toks[p1].text == '(' and p2 is not None and ft.toks[p2].text == meth):
+                        continue
                 if (key.endswith('|') and key == params) or key == txt:
                     todo.append((idx, spec))
             continue
@@ -966,4 +974,60 @@ def n16_add_assign(text):
         new = 'AddAssign::add_assign(&mut %s, %s)' % (lhs, rhs)
         text = text[:toks[start].start] + new + text[toks[last].end:]
         recs.append(dict(rule='N16', before='%s += %s' % (squash(lhs), squash(rhs)[:30]), after='AddAssign::add_assign(&mut .., ..)'))
+    return text, recs
+
+
+def n18_continue(text):
+    """N18: inside a loop body, `if C { S; continue; } REST` (an `if` without `else` whose block ends in `continue;`)
+    -> `if C { S } else { REST }`. Verus for-loops do not support `continue`; the two forms are equivalent."""
+    recs = []
+    for _ in range(8):
+        ft = FnText(text)
+        if ft.body_open is None:
+            break
+        toks = ft.toks
+        done = True
+        for (kw, ob, cb) in find_loops(ft):
+            stmts = split_stmts(ft, ob, cb)
+            for si, st in enumerate(stmts):
+                if toks[st[0]].text != 'if':
+                    continue
+                # the if's block: first '{' at depth 0 of the statement; no else
+                k = st[0]
+                depth = 0
+                blk = None
+                while k <= st[1]:
+                    t = toks[k]
+                    if t.kind == 'punct':
+                        if t.text in '([':
+                            depth += 1
+                        elif t.text in ')]':
+                            depth -= 1
+                        elif t.text == '{' and depth == 0:
+                            blk = k
+                            break
+                    k += 1
+                if blk is None:
+                    continue
+                bclose = match_close(toks, blk)
+                if bclose != st[1] and not (toks[st[1]].text == ';' and ft.prevc(st[1]) == bclose):
+                    continue  # has an else or is part of a larger expression
+                inner = split_stmts(ft, blk, bclose)
+                if not inner:
+                    continue
+                last = inner[-1]
+                if squash(stmt_text(ft, last)) not in ('continue;', 'continue'):
+                    continue
+                rest_start = toks[st[1]].end
+                rest_end = toks[cb].start
+                rest = text[rest_start:rest_end]
+                new = (text[:toks[last[0]].start] + text[toks[last[1]].end:toks[bclose].end] + ' else {' + rest + '}\n' + text[rest_end:])
+                text = new
+                recs.append(dict(rule='N18', before='if C { ..; continue; } REST', after='if C { .. } else { REST }'))
+                done = False
+                break
+            if not done:
+                break
+        if done:
+            break
     return text, recs
